@@ -36,7 +36,12 @@ if what in ('ref', 'all'):
         if flt in f: jobs.append(('ref', os.path.basename(f)[:-5], f))
 if what in ('seed', 'all'):
     for f in sorted(glob.glob('/verif/seeded/*/patch.diff')):
-        if flt in f: jobs.append(('seed', os.path.basename(os.path.dirname(f)), f))
+        if flt not in f: continue
+        try:
+            if json.load(open(os.path.dirname(f) + '/meta.json')).get('retired'):
+                print(f'seed {os.path.basename(os.path.dirname(f))}: retired'); continue
+        except Exception: pass
+        jobs.append(('seed', os.path.basename(os.path.dirname(f)), f))
 
 def work(j):
     kind, name, f = j
